@@ -48,6 +48,11 @@ EXPECT = {
     'X4': [('FixtureShared::NanThrows', 'lat@'), ('FixtureShared::NanThrowsViaHelper', 'lon@')],
     'X9': [('FixtureShared::HalfFilled', 'buf')],
     'X10': [('FixtureShared::Decode', 'lat')],
+    'S2': [('FixtureConic::Forward', 'gamma')],
+    'D1': [('FixtureConic::SetScale', '_nrho0')],
+    'I1': [('FixtureHarm::T', 'invR')],
+    'DSP': [('FixtureHarm::Value', 'Engine<FULL>')],
+    'K7': [('FixtureRaster::probe', 'B1 filepos column')],
     'W1': [('FixtureShared::HalfWritten', 'northp')],
     'X6': [('FixtureShared::Spin', 'loop@')],
     'X7': [('FixtureShared::Pick', 'alphabet')],
@@ -89,6 +94,21 @@ def run_controls(rules):
         elif r == 'X10':
             from .rules import decode
             res = decode.rule_X10(fx, [NS + 'FixtureShared::Decode'], maxlen=4)[0]
+        elif r == 'S2':
+            from .rules import parity
+            res = parity.rule_S2(fx, [NS + 'FixtureConic'])[0]
+        elif r == 'D1':
+            from .rules import derived
+            res = derived.rule_D1(fx, [NS + 'FixtureConic'])[0]
+        elif r == 'I1':
+            from .rules import indep
+            res = indep.rule_I1(fx, {NS + 'FixtureHarm'})[0]
+        elif r == 'DSP':
+            from .rules import dispatch
+            res = dispatch.rule_DSP(fx)[0]
+        elif r == 'K7':
+            from .rules import geoidbounds
+            res = geoidbounds.rule_K7(fx, cls=NS + 'FixtureRaster', entries=('probe',), with_ctor=False)[0]
         elif r == 'W1':
             from .rules import total
             res = total.rule_W1(fx, None)[0]
